@@ -112,6 +112,7 @@ static enum DeviceStatusCode cam_get_meta(const struct Camera* self_, struct Cam
 static enum DeviceStatusCode cam_get_shape(const struct Camera* self_, struct ImageShape* shape)
 {
     const struct MockCamera* c = (const struct MockCamera*)self_;
+    detsched_yield("cam.get_shape"); // so that a source that can never place its frame cannot freeze the scheduler
     cam_shape(c, shape);
     return Device_Ok;
 }
@@ -141,7 +142,7 @@ static enum DeviceStatusCode cam_stop(struct Camera* self_)
     g_dev[c->dev].calls_after_close += g_dev[c->dev].closed;
     if (!g_dev[c->dev].running) g_dev[c->dev].stop_without_start++;
     g_dev[c->dev].stops++; g_dev[c->dev].running = 0;
-    event_notify_all(&c->trigger); // unblock a pending get_frame
+    if (c->props.input_triggers.frame_start.enable) event_notify_all(&c->trigger); // unblock a pending get_frame
     drvlog(c->dev, "stop", "-> ok");
     return Device_Ok;
 }
@@ -151,7 +152,7 @@ static enum DeviceStatusCode cam_trigger(struct Camera* self_)
     struct MockCamera* c = (struct MockCamera*)self_;
     g_dev[c->dev].calls_after_close += g_dev[c->dev].closed;
     g_dev[c->dev].triggers++;
-    event_notify_all(&c->trigger);
+    if (c->props.input_triggers.frame_start.enable) event_notify_all(&c->trigger);
     drvlog(c->dev, "trigger", "-> ok");
     return Device_Ok;
 }
